@@ -114,9 +114,11 @@ func (SupplyMonitor) Post(e *Explorer, before, w *World, pre interface{}, ev *Ev
 			fail("tx-supply-delta", fmt.Sprintf("accepted tx changed supply by %s, statement allows [%s,%s]", delta, lo, hi))
 		}
 	case "block":
+		// independent mint clock (kept by World.Block / World.Tx, not read from the chain's minter): minting starts
+		// with the first block that begins after governance started it; that block only records the reference time
 		mint := math.ZeroInt()
-		if p.initialized && p.prev != nil {
-			ms := w.Time().Sub(*p.prev).Milliseconds()
+		if w.LB.MintRefBefore != nil {
+			ms := w.Time().Sub(*w.LB.MintRefBefore).Milliseconds()
 			mint = math.NewInt(dailyRate).MulRaw(ms).QuoRaw(msPerDay)
 		}
 		if mint.IsPositive() {
@@ -146,9 +148,9 @@ func (SupplyMonitor) Post(e *Explorer, before, w *World, pre interface{}, ev *Ev
 			fail("mint-split", fmt.Sprintf("minted %s: fee pool got %s (want %s), reward pool got %s (want %s)", mint, dFee, q, dTBR, mint.Sub(q)))
 		}
 		// cumulative bound
-		if p.initialized && p.prev != nil {
+		if p.initialized && !w.MintInitAt.IsZero() {
 			if w.Minted.IsNil() {
-				w.Minted, w.MintSince = math.ZeroInt(), *p.prev
+				w.Minted, w.MintSince = math.ZeroInt(), w.MintInitAt
 			}
 			w.Minted = w.Minted.Add(dTBR).Add(dFee)
 			cap := math.NewInt(dailyRate).MulRaw(w.Time().Sub(w.MintSince).Milliseconds()).QuoRaw(msPerDay)
